@@ -94,6 +94,11 @@ Proof.
   apply (fits_in _ 8%nat _ Hf). unfold hdr_fields. cbn [In]. auto.
 Qed.
 
+Lemma env_ok_readdir_room cfg cap q : env_ok cfg cap q = true -> readdir_room q cap.
+Proof.
+  unfold env_ok, readdir_room. intros H [Hop|Hop]; rewrite Hop in H; apply N.leb_le; exact H.
+Qed.
+
 (* ------------------------------------------------------------------ end to end *)
 Theorem end_to_end : forall cfg q fs cap du dg minor,
   wf_req q = true -> cfg_remap cfg = RemapOk du dg -> env_ok cfg cap q = true ->
@@ -107,7 +112,8 @@ Proof.
   destruct (decide_action_post cfg q fs cap du dg Hwf Hre Henv Hkind) as [a [Ha Hact]].
   rewrite handle_outcome, (u64_8_encode_req q (wf_hdr q (wf_req_facts q Hwf))).
   rewrite Hact in *.
-  destruct (post_action_roundtrip q (cfg_minor cfg) cap fs a (wf_unique q Hwf) Hcap Hkind Hfits Ha Hlen)
+  destruct (post_action_roundtrip q (cfg_minor cfg) cap fs a (wf_unique q Hwf) Hcap Hkind Hfits
+              (env_ok_readdir_room cfg cap q Henv) Ha Hlen)
     as [p [Hm Hr]].
   exists p. split; [|exact Hr].
   exact (perform_packet cap (q_unique q) a p Hcap Hm Hlen).
@@ -126,7 +132,8 @@ Proof.
   destruct (decide_action_post cfg q fs cap du dg Hwf Hre Henv Hkind) as [a [Ha Hact]].
   rewrite handle_outcome, (u64_8_encode_req q (wf_hdr q (wf_req_facts q Hwf))).
   rewrite Hact in *.
-  destruct (post_action_roundtrip q (cfg_minor cfg) cap fs a (wf_unique q Hwf) Hcap Hkind Hfits Ha Hlen)
+  destruct (post_action_roundtrip q (cfg_minor cfg) cap fs a (wf_unique q Hwf) Hcap Hkind Hfits
+              (env_ok_readdir_room cfg cap q Henv) Ha Hlen)
     as [p [Hm Hr]].
   rewrite (perform_mem_virtio cap (q_unique q) a p Hcap Hm Hlen). exact Hr.
 Qed.
